@@ -641,8 +641,10 @@ def fidelity(rho, sigma):
     :return: the fidelity between 0 and 1
     :rtype: float
     """
-    assert is_density_matrix(rho)
-    assert is_density_matrix(sigma)
+    # photon loss is simulated with sub-normalized density matrices (the trace is the survival probability),
+    # so a valid argument is positive semidefinite with trace at most 1
+    for matrix in (rho, sigma):
+        assert is_psd(matrix) and np.real(np.trace(matrix)) <= 1.0 + 1e-8
 
     if is_pure(rho) or is_pure(sigma):
         # if either one is pure, use the simplified expression
